@@ -636,6 +636,21 @@ pub(crate) fn lookup_helper_columns<F: Field>(
     // In the paper, that sum includes m(x)/(x + t(x)) = frequencies(x)/g(x), because that was bundled
     // into the h_k(x) polynomials.
     let frequencies = &lookup.frequencies_column.eval_all_rows(trace_poly_values);
+    #[cfg(feature = "verif_hooks")]
+    if let Some((h, row)) = crate::verif_hooks::aux_balance() {
+        if h + 1 < num_helper_columns && row < frequencies.len() {
+            let total = (0..frequencies.len())
+                .map(|i| {
+                    helper_columns[..num_helper_columns - 1]
+                        .iter()
+                        .map(|col| col.values[i])
+                        .sum::<F>()
+                        - frequencies[i] * table_inverse[i]
+                })
+                .sum::<F>();
+            helper_columns[h].values[row] -= total;
+        }
+    }
     let mut z = Vec::with_capacity(frequencies.len());
     z.push(F::ZERO);
     for i in 0..frequencies.len() - 1 {
